@@ -4,6 +4,7 @@ use super::ParseTree;
 
 use crate::alpha::common::DeclarationFlag;
 use crate::delta::lexer::tokens::Tokens;
+use crate::delta::lexer::tokens::strip_quotes;
 use crate::delta::parser::parse_node::{self, NodeId, ParseNode, U24};
 use crate::delta::parser::parse_tree::MAX_PARSE_NODE_CONTEXT;
 
@@ -363,7 +364,7 @@ fn print_xml(
 
 		(SimpleStringLiteral { literal }, _) => Box::new(once(format!(
 			"<SimpleStringLiteral src={:?} />",
-			get_source(literal).trim_matches('"')
+			strip_quotes(get_source(literal))
 		))),
 
 		(CompositeStringLiteral { start }, [_, _, _, _, EndOfSpan { end }]) =>
